@@ -153,6 +153,35 @@ Definition poly_random_gfq (bits q : Z) (d : nat) (s : Z) : list Z * Z :=
   let '(lead, s1) := gfq_nonzerorandom bits q q s in
   let '(low, s2) := poly_low_gfq d bits q s1 in (rev low ++ [lead], s2).
 
+(* GIV_ExtensionrandIter<Extension<BF>, Type>  (field/extension.h)
+     constructor: _size(size) ... if ((_size > charact) || (_size == 0)) _size = charact;
+     random(elt): elt.resize(order); for each coefficient, first to last:
+        int64_t tmp = static_cast<int64_t>((double(_givrand()) / double(_GIVRAN_MODULO_)) * double(_size));
+        base_field().init(coefficient, tmp);
+   The two floating-point operations are IEEE binary64 round-to-nearest-even on exact operands (all three integers are
+   below 2^53); a double is carried as (m, e) = m * 2^e.  The conversion to int64_t truncates (the value is >= 0). *)
+Definition rne_div (n d : Z) : Z :=
+  let q := n / d in let r := n mod d in
+  if 2 * r <? d then q else if d <? 2 * r then q + 1 else if Z.even q then q else q + 1.
+Definition rn53 (n d : Z) : Z * Z :=          (* n >= 0, d > 0 : n/d rounded to a 53-bit significand *)
+  if n =? 0 then (0, 0) else
+  let e0 := Z.log2 n - Z.log2 d - 53 in
+  let scaled e := if 0 <=? e then (n, d * 2 ^ e) else (n * 2 ^ (- e), d) in
+  let '(num0, den0) := scaled e0 in
+  let e := if 2 ^ 53 * den0 <=? num0 then e0 + 1 else e0 in
+  let '(num, den) := scaled e in (rne_div num den, e).
+Definition dbl_mul_int (x : Z * Z) (k : Z) : Z * Z :=
+  let '(m, e) := x in if 0 <=? e then rn53 (m * k * 2 ^ e) 1 else rn53 (m * k) (2 ^ (- e)).
+Definition dbl_trunc (x : Z * Z) : Z := let '(m, e) := x in if 0 <=? e then m * 2 ^ e else m / 2 ^ (- e).
+Definition ext_size (size charact : Z) : Z := if (size >? charact) || (size =? 0) then charact else size.
+Definition ext_coeff (size x : Z) : Z := dbl_trunc (dbl_mul_int (rn53 x giv_modulo) size).
+Fixpoint ext_randiter (n : nat) (init : Z -> Z) (size s : Z) : list Z * Z :=
+  match n with
+  | O => ([], s)
+  | S k => let x := lcg_next s in
+           let '(cs, s2) := ext_randiter k init size x in (init (ext_coeff size x) :: cs, s2)
+  end.
+
 (* ================================================================ Part C: Integer draws over a GMP oracle *)
 
 Inductive req : Type :=
